@@ -62,6 +62,7 @@ type GCase struct {
 	Budget    uint32    `json:"budget,omitempty"`
 	MapSeed   uint64    `json:"map_seed,omitempty"`
 	Race      bool      `json:"race,omitempty"`
+	Cold      bool      `json:"cold,omitempty"`
 }
 
 type GJob struct {
@@ -136,6 +137,12 @@ func (e *Env) gensimTexts(nGen int, thorough bool) []GText {
 		GText{"warn-all", hdr + "S <- S 'a' / X / 'b'\nU <- U2\nU2 <- U 'q'\nW <- 'w' Y\n"},
 		GText{"dup-rule", hdr + "S <- 'a' A\nA <- 'b'\nA <- 'c'\n"},
 		GText{"tiny", hdr + "S <- 'a' S / !.\n"},
+		// left recursion in its various guises (all of them only warned about)
+		GText{"lr-mutual", hdr + "S <- A 'q' / C\nA <- C 'x'\nC <- A / 'z'\n"},
+		GText{"lr-indirect3", hdr + "S <- A\nA <- B 'a' / 'x'\nB <- C 'b' / 'y'\nC <- A 'c' / 'z'\n"},
+		GText{"lr-nullable-prefix", hdr + "S <- A !.\nA <- B? A 'x' / 'y'\nB <- 'b'*\n"},
+		GText{"lr-under-ops", hdr + "S <- (&S 'a')? T\nT <- !T 'b' / U*\nU <- U? 'c' / <S> 'd'\n"},
+		GText{"lr-always-succeeds", hdr + "S <- A B C\nA <- B / 'a'?\nB <- C A / \nC <- A* B\n"},
 	)
 	rel := []string{"peg.peg", "grammars/longtest/long.peg", "grammars/calculator/calculator.peg", "grammars/calculatorast/calculator.peg",
 		"grammars/fexl/fexl.peg", "cmd/peg-bootstrap/bootstrap.peg", "cmd/peg-bootstrap/peg.bootstrap.peg"}
@@ -155,6 +162,9 @@ func (e *Env) gensimTexts(nGen int, thorough bool) []GText {
 	for i := 0; i < nGen; i++ {
 		g := workload.Generate(simrt.DeriveN(e.Seed, "c09-grammar", i), "p")
 		out = append(out, GText{fmt.Sprintf("gen%d", i), g.Text()})
+		// the same number of grammars without the well-formedness discipline
+		w := workload.GenerateWild(simrt.DeriveN(e.Seed, "c09-wild", i), "p")
+		out = append(out, GText{fmt.Sprintf("wild%d", i), w.Text()})
 	}
 	return out
 }
@@ -178,8 +188,9 @@ func buildGensim(e *Env, sc *Scratch, texts []GText, wantRace bool) (*gensimRig,
 		return nil, infra("copy: %v", err)
 	}
 	rig.weaver = &weave.Weaver{ModuleDir: rig.wrepo}
-	opt := weave.Options{Yields: true, SyncTypes: true, Stderr: true, MapRanges: true}
 	for _, d := range []string{"set", "tree", "zzsim/frontend"} {
+		// statement-level yields in the generator itself; the front end (an emitted parser) keeps function-level ones
+		opt := weave.Options{Yields: true, StmtYields: d != "zzsim/frontend", SyncTypes: true, Stderr: true, MapRanges: true}
 		if err := rig.weaver.WeaveDir(filepath.Join(rig.wrepo, d), d, opt); err != nil {
 			return nil, infra("weave %s: %v", d, err)
 		}
@@ -279,11 +290,15 @@ type gensimAgg struct {
 }
 
 func (rig *gensimRig) sweep(seed uint64, total int, race bool, chunk int, timeout time.Duration) (*gensimAgg, error) {
+	return rig.sweepRange(seed, 0, total, race, chunk, timeout)
+}
+
+func (rig *gensimRig) sweepRange(seed uint64, lo, total int, race bool, chunk int, timeout time.Duration) (*gensimAgg, error) {
 	agg := &gensimAgg{parsimAgg: *newAgg()}
 	var mu sync.Mutex
-	nchunks := (total + chunk - 1) / chunk
+	nchunks := (total - lo + chunk - 1) / chunk
 	err := ParallelDo(nchunks, rig.env.Jobs, func(i int) error {
-		from, to := i*chunk, min(total, (i+1)*chunk)
+		from, to := lo+i*chunk, min(total, lo+(i+1)*chunk)
 		res, err := rig.runJob(&GJob{Seed: seed, From: from, To: to, Race: race, MaxViol: 3}, race, timeout)
 		if err != nil {
 			if wc, ok := err.(workerCrash); ok {
@@ -375,8 +390,15 @@ func (rig *gensimRig) shrink(v GViolation) GViolation {
 			break
 		}
 		progressed := false
-		for lo := 0; lo < len(cands) && !progressed; lo += 16 {
-			hi := min(len(cands), lo+16)
+		batch := 16
+		if v.Case.Cold {
+			batch = 1
+			if len(cands) > 40 {
+				cands = cands[:40]
+			}
+		}
+		for lo := 0; lo < len(cands) && !progressed; lo += batch {
+			hi := min(len(cands), lo+batch)
 			outs, err := rig.runExplicit(cands[lo:hi], false, false)
 			if err != nil || len(outs) != hi-lo {
 				return v
@@ -591,9 +613,11 @@ func (rig *gensimRig) processTier(optSets [][]string, withRace bool) (runs int, 
 func CheckC09(e *Env) (int, error) {
 	thorough := e.Tier == "thorough"
 	nGen, runs, raceRuns, chunk := 16, 1600, 160, 25
+	coldRuns := 96
 	optSets := [][]string{{}, {"-inline", "-switch"}, {"-strict"}, {"-switch", "-noast"}}
 	if thorough {
 		nGen, runs, raceRuns, chunk = 80, 40000, 3000, 200
+		coldRuns = 1500
 		optSets = [][]string{{}, {"-inline"}, {"-switch"}, {"-inline", "-switch"}, {"-strict"}, {"-noast"}, {"-switch", "-noast"}, {"-inline", "-switch", "-strict"}}
 	}
 	sc, err := NewScratch("c09")
@@ -641,6 +665,20 @@ func CheckC09(e *Env) (int, error) {
 	}
 	e.Logf("race sweep done: %d runs", raceAgg.Runs)
 	agg.GViol = append(agg.GViol, raceAgg.GViol...)
+	// cold starts: one multi-client case per process, concurrent run first
+	const coldBase = 1_000_000
+	cold, err := rig.sweepRange(e.Seed, coldBase, coldBase+coldRuns, false, 1, 60*time.Minute)
+	if err != nil {
+		return 2, err
+	}
+	coldRace, err := rig.sweepRange(e.Seed, coldBase, coldBase+coldRuns, true, 1, 60*time.Minute)
+	if err != nil {
+		return 2, err
+	}
+	agg.parsimAgg.merge(&cold.parsimAgg)
+	agg.GViol = append(agg.GViol, cold.GViol...)
+	agg.GViol = append(agg.GViol, coldRace.GViol...)
+	e.Logf("cold sweeps done: %d + %d runs", cold.Runs, coldRace.Runs)
 	viols := pviols
 	seen := map[string]bool{}
 	for _, v := range agg.GViol {
